@@ -96,7 +96,9 @@ func (r *Reconnector) Schedule(addr string) {
 func (r *Reconnector) attemptReconnect(addr string) {
 	r.mu.Lock()
 	state, exists := r.states[addr]
-	if !exists || r.closed {
+	// A timer that fired just before Pause() stopped it must not start an
+	// attempt while reconnection is paused (the agent is asleep).
+	if !exists || r.closed || r.paused {
 		r.mu.Unlock()
 		return
 	}
@@ -118,7 +120,8 @@ func (r *Reconnector) attemptReconnect(addr string) {
 	r.mu.Lock()
 	defer r.mu.Unlock()
 
-	if r.closed {
+	// Paused while the attempt was running: do not arm another retry.
+	if r.closed || r.paused {
 		return
 	}
 
